@@ -191,6 +191,64 @@ fn case(rec: &mut Rec, ctx: &Ctx, idx: u64, rng: &mut ChaCha20Rng, servers: &[(S
   }
 }
 
+/// key sync with a state whose public key does not belong to its secret key (a
+/// corrupted or forged blob): whatever the receiver does with it, afterwards it
+/// must be ONE well-defined server - either its old self (same public key, same
+/// outputs, proofs verify) or the state it was given (that public key, the
+/// exporter's outputs)
+fn inconsistent_import(rec: &mut Rec, _ctx: &Ctx, idx: u64, rng: &mut ChaCha20Rng) {
+  use ppoprf::ppoprf::ServerKeyState;
+  let tags = vec![1u8, 2, 9];
+  let mut recv = Server::new(tags.clone()).expect("server");
+  let exporter = Server::new(tags.clone()).expect("server");
+  let third = Server::new(tags.clone()).expect("server");
+  let mut bytes = bincode::serialize(&exporter.get_private_key()).expect("export");
+  let other_pk = third.get_public_key().serialize_to_bincode().expect("pk");
+  // layout of the blob: scalar[32] | public key (base[32] | n | entries) | ggm key
+  let what = idx % 3;
+  match what {
+    0 => bytes[32..64].copy_from_slice(&other_pk[..32]),        // foreign base key
+    1 => bytes[32 + 41..32 + 73].copy_from_slice(&other_pk[41..73]), // foreign key of the first tag
+    _ => {}                                                      // consistent (control)
+  }
+  let st: ServerKeyState = match bincode::deserialize(&bytes) {
+    Ok(s) => s,
+    Err(_) => return,
+  };
+  let input = rand_bytes_in(rng, 1..20);
+  let (bp, r) = Client::blind(&input);
+  let p_in = Client::unblind(&bp, &r);
+  let before: Vec<Option<Vec<u8>>> = tags.iter().map(|t| recv.eval(&p_in, *t, false).ok().map(|e| e.output.as_bytes().to_vec())).collect();
+  let exp_out: Vec<Option<Vec<u8>>> = tags.iter().map(|t| exporter.eval(&p_in, *t, false).ok().map(|e| e.output.as_bytes().to_vec())).collect();
+  let pk_before = recv.get_public_key().serialize_to_bincode().unwrap_or_default();
+  let pk_state = bytes[32..32 + pk_before.len()].to_vec();
+  rec.evals += 1;
+  rec.ev("inconsistent_imports");
+  rec.case(&("import", what, idx));
+  let _ = guarded(|| recv.set_private_key(st));
+  let pk_after = recv.get_public_key().serialize_to_bincode().unwrap_or_default();
+  let after: Vec<Option<Vec<u8>>> = tags.iter().map(|t| recv.eval(&p_in, *t, false).ok().map(|e| e.output.as_bytes().to_vec())).collect();
+  let ok = if pk_after == pk_before {
+    after == before
+  } else if pk_after == pk_state {
+    after == exp_out
+  } else {
+    false
+  };
+  if !ok {
+    rec.violation(
+      "import-leaves-mixed-server",
+      format!(
+        "after importing a key state ({}) the server is neither its old self nor the imported state: public key {} but outputs {}",
+        ["with a foreign base public key", "with a foreign per-tag public key", "consistent"][what as usize],
+        if pk_after == pk_before { "unchanged" } else if pk_after == pk_state { "replaced by the state's" } else { "is a third value" },
+        if after == before { "unchanged" } else if after == exp_out { "equal the exporter's" } else { "match neither" }
+      ),
+      json!({"variant": what}),
+    );
+  }
+}
+
 /// every input length around block / buffer boundaries: for one input of each
 /// length, outputs must differ between two servers and between two tags, and
 /// equal the server's direct evaluation
@@ -247,6 +305,7 @@ pub fn run(ctx: &Ctx) -> Rec {
   let max_len = if ctx.thorough() { 1100 } else { 340 };
   rec.merge(par_run(ctx, "length-sweep", max_len, |rec, i, rng| length_sweep(rec, ctx, i, rng, &servers, &g)));
   rec.note("length_sweep_max", json!(max_len));
+  rec.merge(par_run(ctx, "inconsistent-import", ctx.n(60, 3000), |rec, i, rng| inconsistent_import(rec, ctx, i, rng)));
   rec.note("distinct_blinded_requests", json!(g.blinded.lock().unwrap().len()));
   rec.note("distinct_result_points", json!(g.points.lock().unwrap().len()));
   rec.note("servers", json!(servers.len()));
